@@ -28,7 +28,7 @@ META = {
                   "compares itself; does not use _test_decomposition_rule / _count_gates. Per-kind work-wire use (zeroed/borrowed/burnable/"
                   "garbage) is recorded as a note only: the statement bounds the number of work wires, not their kinds.",
     "shards": {"quick": 4, "thorough": 16},
-    "budget_s": {"quick": 55, "thorough": 130},
+    "budget_s": {"quick": 55, "thorough": 110},
     "min_evals": {"quick": 600, "thorough": 6000},
     "min_nontrivial": {"quick": 300, "thorough": 3000},
     "deciding": ["resources.exact", "resources.workwires"],
